@@ -94,8 +94,8 @@ func init() {
 			why := "returned value is not (timeout - elapsed)"
 			if strings.HasSuffix(r, "-elapsed)") && strings.HasPrefix(r, "(") {
 				t := strings.TrimSuffix(strings.TrimPrefix(r, "("), "-elapsed)")
-				if t == "min" {
-					ok = true
+				if t == "min" || hasTopArg(t, "max", "min") {
+					ok = true // the minimum itself, or the builtin max(..., min)
 				} else {
 					// the path must know timeout >= min
 					for k, v := range ex.Cube {
@@ -114,7 +114,7 @@ func init() {
 			}
 			c.Check("C06/remaining/clamped", "the remaining time is (timeout - elapsed) with timeout >= min on every path (confirmations never shorten the wait below the minimum)", ex.Pos, ok, why+": "+untok(r))
 		}
-		c.Floor("exits of the remaining-time helper", nr, 2)
+		c.Floor("exits of the remaining-time helper", nr, 1) // one exit when the clamp is an expression (max builtin), two when it is a branch
 
 		// ---- 3. constructor: accuser excluded, min when k<1 else max, fields from parameters
 		ns := c.MustFunc("newSuspicion")
@@ -337,4 +337,37 @@ func checkTimerCancel(c *Ctx, prop string) {
 			c.Check(prop+"/invariant/cancel-only-with-state-change/"+k, rule, ex.Pos, ok, w)
 		}
 	}
+}
+
+// hasTopArg: name is the rendering of fn(a1, ..., an) and one ai is exactly arg.
+func hasTopArg(name, fn, arg string) bool {
+	if !strings.HasPrefix(name, fn+"(") || !strings.HasSuffix(name, ")") {
+		return false
+	}
+	body := name[len(fn)+1 : len(name)-1]
+	depth, start := 0, 0
+	var args []string
+	for i, r := range body {
+		switch r {
+		case '(', '[', '{':
+			depth++
+		case ')', ']', '}':
+			depth--
+			if depth < 0 {
+				return false // the closing parenthesis of fn( is not the last character
+			}
+		case ',':
+			if depth == 0 {
+				args = append(args, strings.TrimSpace(body[start:i]))
+				start = i + 1
+			}
+		}
+	}
+	args = append(args, strings.TrimSpace(body[start:]))
+	for _, a := range args {
+		if a == arg {
+			return true
+		}
+	}
+	return false
 }
